@@ -65,7 +65,7 @@ Fixpoint lo (t : ntree) : nat :=
   | NPre i _ _ _ => i
   | NSuf _ _ _ a => lo a
   | NBin _ _ _ l _ => lo l
-  | NGroup i _ _ => i
+  | NGroup _ i _ _ => i
   end.
 
 Fixpoint hi (t : ntree) : nat :=
@@ -74,7 +74,7 @@ Fixpoint hi (t : ntree) : nat :=
   | NPre _ _ _ a => hi a
   | NSuf i _ _ _ => i
   | NBin _ _ _ _ r => hi r
-  | NGroup _ _ a => hi a
+  | NGroup _ _ _ a => hi a
   end.
 
 (* indices in token order: left operand < operator < right operand *)
@@ -84,7 +84,7 @@ Fixpoint ordered (t : ntree) : Prop :=
   | NPre i _ _ a => i < lo a /\ ordered a
   | NSuf i _ _ a => hi a < i /\ ordered a
   | NBin i _ _ l r => hi l < i /\ i < lo r /\ ordered l /\ ordered r
-  | NGroup i _ a => i < lo a /\ ordered a
+  | NGroup _ i _ a => i < lo a /\ ordered a
   end.
 
 Fixpoint has_id (t : ntree) (j : nat) : Prop :=
@@ -93,7 +93,7 @@ Fixpoint has_id (t : ntree) (j : nat) : Prop :=
   | NPre i _ _ a => j = i \/ has_id a j
   | NSuf i _ _ a => j = i \/ has_id a j
   | NBin i _ _ l r => j = i \/ has_id l j \/ has_id r j
-  | NGroup i _ a => j = i \/ has_id a j
+  | NGroup _ i _ a => j = i \/ has_id a j
   end.
 
 Fixpoint size (t : ntree) : nat :=
@@ -102,7 +102,7 @@ Fixpoint size (t : ntree) : nat :=
   | NPre _ _ _ a => S (size a)
   | NSuf _ _ _ a => S (size a)
   | NBin _ _ _ l r => S (size l + size r)
-  | NGroup _ _ a => S (size a)
+  | NGroup _ _ _ a => S (size a)
   end.
 
 (* steps from the leftmost node up to the root *)
@@ -112,7 +112,7 @@ Fixpoint ldepth (t : ntree) : nat :=
   | NPre _ _ _ _ => 0
   | NSuf _ _ _ a => S (ldepth a)
   | NBin _ _ _ l _ => S (ldepth l)
-  | NGroup _ _ _ => 0
+  | NGroup _ _ _ _ => 0
   end.
 
 Lemma has_id_root t : has_id t (nid t).
@@ -123,7 +123,7 @@ Proof. induction t; simpl; auto. Qed.
 
 Lemma ordered_lo_hi t : ordered t -> lo t <= nid t <= hi t.
 Proof.
-  induction t as [i d k|i d k a IH|i d k a IH|i d k l IHl r IHr|i k a IH]; simpl.
+  induction t as [i d k|i d k a IH|i d k a IH|i d k l IHl r IHr|b i k a IH]; simpl.
   - lia.
   - intros [H1 H2]. specialize (IH H2). lia.
   - intros [H1 H2]. specialize (IH H2). lia.
@@ -133,7 +133,7 @@ Qed.
 
 Lemma ordered_range t j : ordered t -> has_id t j -> lo t <= j <= hi t.
 Proof.
-  induction t as [i d k|i d k a IH|i d k a IH|i d k l IHl r IHr|i k a IH]; simpl.
+  induction t as [i d k|i d k a IH|i d k a IH|i d k l IHl r IHr|b i k a IH]; simpl.
   - lia.
   - intros [H1 H2] [->|Hj]; [pose proof (ordered_lo_hi a H2) as B; lia|specialize (IH H2 Hj); lia].
   - intros [H1 H2] [->|Hj]; [pose proof (ordered_lo_hi a H2) as B; lia|specialize (IH H2 Hj); lia].
@@ -145,7 +145,7 @@ Qed.
 
 Lemma ordered_size t : ordered t -> size t + lo t <= S (hi t).
 Proof.
-  induction t as [i d k|i d k a IH|i d k a IH|i d k l IHl r IHr|i k a IH]; simpl.
+  induction t as [i d k|i d k a IH|i d k a IH|i d k l IHl r IHr|b i k a IH]; simpl.
   - lia.
   - intros [H1 H2]. specialize (IH H2). lia.
   - intros [H1 H2]. specialize (IH H2). lia.
@@ -155,7 +155,7 @@ Qed.
 
 Lemma ordered_ldepth t : ordered t -> ldepth t + lo t <= nid t.
 Proof.
-  induction t as [i d k|i d k a IH|i d k a IH|i d k l IHl r IHr|i k a IH]; simpl.
+  induction t as [i d k|i d k a IH|i d k a IH|i d k l IHl r IHr|b i k a IH]; simpl.
   - lia.
   - lia.
   - intros [H1 H2]. specialize (IH H2). pose proof (ordered_lo_hi a H2) as B. lia.
@@ -192,8 +192,8 @@ Fixpoint denotes (ns : list pnode) (p : option nat) (t : ntree) : Prop :=
     exists n, nth_error ns i = Some n /\ bin_shape n d k /\ n_parent n = p /\
               n_left n = Some (nid l) /\ n_right n = Some (nid r) /\
               denotes ns (Some i) l /\ denotes ns (Some i) r
-  | NGroup i k a =>
-    exists n, nth_error ns i = Some n /\ n_sec n = S_StartGrouping /\ n_def n = D_Group /\ n_parent n = p /\
+  | NGroup b i k a =>
+    exists n, nth_error ns i = Some n /\ n_sec n = S_StartGrouping /\ n_def n = bdef b /\ n_parent n = p /\
               n_left n = None /\ n_right n = Some (nid a) /\ n_tok n = Some k /\ denotes ns (Some i) a
   end.
 
@@ -204,7 +204,7 @@ Qed.
 
 Lemma denotes_lt ns p t j : denotes ns p t -> has_id t j -> j < length ns.
 Proof.
-  revert p. induction t as [i d k|i d k a IH|i d k a IH|i d k l IHl r IHr|i k a IH]; simpl; intros p.
+  revert p. induction t as [i d k|i d k a IH|i d k a IH|i d k l IHl r IHr|b i k a IH]; simpl; intros p.
   - intros (n & H & _) ->. eapply nth_error_lt; eauto.
   - intros (n & H & A) [->|Hj]; [eapply nth_error_lt; eauto|]. eapply IH; [apply A|exact Hj].
   - intros (n & H & A) [->|Hj]; [eapply nth_error_lt; eauto|]. eapply IH; [apply A|exact Hj].
@@ -218,7 +218,7 @@ Qed.
 Lemma denotes_ext ns ns' p t :
   (forall j, has_id t j -> nth_error ns' j = nth_error ns j) -> denotes ns p t -> denotes ns' p t.
 Proof.
-  revert p. induction t as [i d k|i d k a IH|i d k a IH|i d k l IHl r IHr|i k a IH]; simpl; intros p E.
+  revert p. induction t as [i d k|i d k a IH|i d k a IH|i d k l IHl r IHr|b i k a IH]; simpl; intros p E.
   - intros (n & H & A). exists n. rewrite E by reflexivity. auto.
   - intros (n & H & A). exists n. rewrite E by auto. split; [exact H|].
     destruct A as (A1 & A2 & A3 & A4 & A5 & A6 & A7). repeat split; auto.
@@ -238,19 +238,19 @@ Fixpoint shift_rtree (a : nat) (t : rtree) : rtree :=
   | RPre d k x => RPre d (k + a) (shift_rtree a x)
   | RSuf d k x => RSuf d (k + a) (shift_rtree a x)
   | RBin d k l r => RBin d (option_map (fun j => j + a) k) (shift_rtree a l) (shift_rtree a r)
-  | RGroup k x => RGroup (k + a) (shift_rtree a x)
+  | RGroup b k x => RGroup b (k + a) (shift_rtree a x)
   end.
 
 Lemma shift_rtree_0 t : shift_rtree 0 t = t.
 Proof.
-  induction t as [d k|d k x IH|d k x IH|d k l IHl r IHr|k x IH]; simpl; rewrite ?Nat.add_0_r, ?IH, ?IHl, ?IHr; auto.
+  induction t as [d k|d k x IH|d k x IH|d k l IHl r IHr|b k x IH]; simpl; rewrite ?Nat.add_0_r, ?IH, ?IHl, ?IHr; auto.
   destruct k; simpl; rewrite ?Nat.add_0_r; reflexivity.
 Qed.
 
 Lemma tree_of_denotes_off ns off : forall t p fuel, denotes ns p t -> size t <= fuel ->
   tree_of fuel ns off (nid t) = Some (shift_rtree off (erase t)).
 Proof.
-  induction t as [i d k|i d k a IH|i d k a IH|i d k l IHl r IHr|i k a IH]; intros p fuel D Hf;
+  induction t as [i d k|i d k a IH|i d k a IH|i d k l IHl r IHr|b i k a IH]; intros p fuel D Hf;
     (destruct fuel as [|fuel]; [simpl in Hf; lia|]); simpl in D, Hf; destruct D as (n & Hn & A);
     cbn [tree_of nid erase shift_rtree]; rewrite Hn.
   - destruct A as (A1 & A2 & A3 & A4 & A5 & A6 & A7). rewrite A5, A6, A7, A2.
@@ -265,7 +265,7 @@ Proof.
     + rewrite B2, A0. destruct (n_sec n); try discriminate; reflexivity.
     + rewrite B1, A0. reflexivity.
   - destruct A as (A1 & A2 & A3 & A4 & A5 & A6 & A7). rewrite A1, A2, A4, A5, A6.
-    rewrite (IH (Some i) fuel A7) by lia. reflexivity.
+    rewrite (IH (Some i) fuel A7) by lia. destruct b; reflexivity.
 Qed.
 
 Lemma tree_of_denotes ns t p fuel : denotes ns p t -> size t <= fuel ->
@@ -279,7 +279,7 @@ Lemma find_root_climb ns : forall t p, denotes ns p t ->
     forall fuel count, count + ldepth t <= length ns ->
       find_root (ldepth t + fuel) ns (lo t) n0 count = find_root fuel ns (nid t) nr (count + ldepth t).
 Proof.
-  induction t as [i d k|i d k a IH|i d k a IH|i d k l IHl r IHr|i k a IH]; intros p D n0 H0; simpl in D;
+  induction t as [i d k|i d k a IH|i d k a IH|i d k l IHl r IHr|b i k a IH]; intros p D n0 H0; simpl in D;
     destruct D as (n & Hn & A); cbn [lo nid ldepth] in *.
   - exists n0. rewrite H0 in Hn. injection Hn as <-. split; [exact H0|]. split; [apply A|].
     intros. rewrite Nat.add_0_r. reflexivity.
